@@ -12,7 +12,7 @@
 From Coq Require Import List ZArith.
 From Coq Require Import Reals.
 From Flocq Require Import IEEE754.Binary IEEE754.Bits.
-From RtoscV Require Import Auto.F32 Auto.AutoModel Auto.AutoMapModel Auto.AutoProofs Auto.AutoMapProofs Auto.AutoRegress.
+From RtoscV Require Import Auto.F32 Auto.AutoModel Auto.AutoMapModel Auto.AutoProofs Auto.AutoMapProofs Auto.AutoRemapProofs Auto.AutoRegress.
 Import ListNotations.
 Local Open Scope Z_scope.
 
@@ -113,33 +113,45 @@ Theorem C19_toggle : forall (expf_o : f32 -> f32) s value,
   sub_output expf_o s value = [MsgT (s_path s) (gt32 (lin value (cp1 s) (cp3 s)) f32_half)].
 Proof. exact toggle_output. Qed.
 
-(* the value never decreases when the slot value increases.
-   FULL STATEMENT (not proved): for gain > 0 and min <= max, for all slot values.
-   PROVED: under the side conditions [ordered control points] (cp1 <= cp3, which
-   is what gain > 0 and min <= max produce in updateMapping; checked by the
-   correspondence run, not proved) and [no overflow] (the two linear images are
-   finite floats). *)
-Theorem C19_monotone_partial : forall (expf_o : f32 -> f32) s v1 v2,
-  used s = true -> s_type s = ch_f -> s_scale s = 0 ->
-  finite32 (s_min s) -> finite32 (s_max s) -> (val (s_min s) <= val (s_max s))%R ->
-  finite32 (cp1 s) -> finite32 (cp3 s) -> (val (cp1 s) <= val (cp3 s))%R ->
+(* the value never decreases when the slot value increases (for positive gain).
+   FULL STATEMENT (not proved): for every gain > 0, min <= max and all slot values.
+   PROVED: under the side condition [no overflow] - the control points that
+   updateMapping computes and the two linear images v*(b-a)+a are finite floats
+   (violated only by magnitudes near 3.4e38).  [remap s0] is the sub-automation
+   after updateMapping; gain >= 0 and min <= max are the property's own
+   hypotheses. *)
+Theorem C19_monotone_partial : forall (expf_o : f32 -> f32) s0 v1 v2,
+  let s := remap s0 in
+  used s0 = true -> s_type s0 = ch_f -> s_scale s0 = 0 ->
+  finite32 (s_min s0) -> finite32 (s_max s0) -> (val (s_min s0) <= val (s_max s0))%R ->
+  (0 <= val (gain s0))%R ->
+  finite32 (cp1 s) -> finite32 (cp3 s) ->
   (val v1 <= val v2)%R ->
   finite32 (lin v1 (cp1 s) (cp3 s)) -> finite32 (lin v2 (cp1 s) (cp3 s)) ->
   exists c1 c2, sub_output expf_o s v1 = [MsgF (s_path s) c1] /\
                 sub_output expf_o s v2 = [MsgF (s_path s) c2] /\ (val c1 <= val c2)%R.
-Proof. exact float_output_monotone. Qed.
+Proof. exact remap_float_monotone. Qed.
 
-Theorem C19_monotone_int_partial : forall (expf_o : f32 -> f32) s v1 v2 a b,
-  used s = true -> s_type s = ch_i ->
-  finite32 (s_min s) -> finite32 (s_max s) ->
-  val (s_min s) = IZR a -> val (s_max s) = IZR b -> a <= b ->
+Theorem C19_monotone_int_partial : forall (expf_o : f32 -> f32) s0 v1 v2 a b,
+  let s := remap s0 in
+  used s0 = true -> s_type s0 = ch_i ->
+  finite32 (s_min s0) -> finite32 (s_max s0) ->
+  val (s_min s0) = IZR a -> val (s_max s0) = IZR b -> a <= b ->
   -2147483648 <= a -> b <= 2147483647 ->
-  finite32 (cp1 s) -> finite32 (cp3 s) -> (val (cp1 s) <= val (cp3 s))%R ->
+  (0 <= val (gain s0))%R ->
+  finite32 (cp1 s) -> finite32 (cp3 s) ->
   (val v1 <= val v2)%R ->
   finite32 (lin v1 (cp1 s) (cp3 s)) -> finite32 (lin v2 (cp1 s) (cp3 s)) ->
   exists z1 z2, sub_output expf_o s v1 = [MsgI (s_path s) z1] /\
                 sub_output expf_o s v2 = [MsgI (s_path s) z2] /\ z1 <= z2.
-Proof. exact int_output_monotone. Qed.
+Proof. exact remap_int_monotone. Qed.
+
+(* updateMapping orders the control points for gain >= 0 and min <= max *)
+Theorem C19_control_points_ordered : forall s,
+  finite32 (cp1 (remap s)) -> finite32 (cp3 (remap s)) ->
+  (val (s_min s) <= val (s_max s))%R -> (0 <= val (gain s))%R ->
+  (val (cp1 (remap s)) <= val (cp3 (remap s)))%R.
+Proof. exact remap_ordered. Qed.
 
 (* at the default gain and offset slot values map linearly onto min..max.
    FULL STATEMENT (not proved): for every declared range.
@@ -176,3 +188,8 @@ Theorem C19_monotone_nonvacuous :
   bits_of_b32 (clamp (lin ex_v1 (cp1 ex_sub) (cp3 ex_sub)) (s_min ex_sub) (s_max ex_sub)) = 1071644672 /\
   bits_of_b32 (clamp (lin ex_v2 (cp1 ex_sub) (cp3 ex_sub)) (s_min ex_sub) (s_max ex_sub)) = 1083179008.
 Proof. exact monotone_nonvacuous. Qed.
+
+Theorem C19_monotone_nonvacuous_remap :
+  ex_sub = remap ex_sub0 /\ (0 <= val (gain ex_sub0))%R /\
+  used ex_sub0 = true /\ s_type ex_sub0 = ch_f /\ s_scale ex_sub0 = 0.
+Proof. exact ex_sub_is_remap. Qed.
